@@ -21,7 +21,7 @@ var ErrSim = errors.New("simio: injected read error")
 type Plan struct {
 	Chunks      []int  // successive maximal read sizes, cycled; 0 = one (0,nil) return
 	EOFWithData bool   // deliver the last bytes together with io.EOF
-	FaultKind   string // "", "eof", "err", "err+data"
+	FaultKind   string // "", "eof", "err", "err+data", "transient" (an error reported once together with data; the stream then continues)
 	FaultAt     int    // offset at which the fault lands
 }
 
@@ -59,7 +59,7 @@ func ParsePlan(s string) Plan {
 			if len(kv) == 2 {
 				if n, err := strconv.Atoi(kv[1]); err == nil && n >= 0 {
 					switch kv[0] {
-					case "eof", "err", "err+data":
+					case "eof", "err", "err+data", "transient":
 						p.FaultKind, p.FaultAt = kv[0], n
 					}
 				}
@@ -123,6 +123,15 @@ func DrawDestructive(r *kit.Rng, n int) Plan {
 	return p
 }
 
+// DrawTransient draws a plan with one transient error reported together
+// with data somewhere inside the first n bytes.
+func DrawTransient(r *kit.Rng, n int) Plan {
+	p := DrawBenign(r)
+	p.FaultKind = "transient"
+	p.FaultAt = r.Intn(n)
+	return p
+}
+
 func minInt(a, b int) int {
 	if a < b {
 		return a
@@ -132,13 +141,14 @@ func minInt(a, b int) int {
 
 // Reader serves data under a plan and counts what actually fired.
 type Reader struct {
-	data  []byte
-	off   int
-	plan  Plan
-	ci    int
-	zeros int
-	Fired map[string]int
-	Reads int
+	data          []byte
+	off           int
+	plan          Plan
+	ci            int
+	zeros         int
+	transientDone bool
+	Fired         map[string]int
+	Reads         int
 }
 
 // NewReader builds the reader.
@@ -159,7 +169,12 @@ func (r *Reader) Read(p []byte) (int, error) {
 		return 0, nil
 	}
 	faulty := r.plan.FaultKind != ""
-	if faulty && r.off >= r.plan.FaultAt && r.plan.FaultKind != "err+data" {
+	if faulty && r.plan.FaultKind == "transient" {
+		if r.transientDone || r.off >= len(r.data) {
+			faulty = false
+		}
+	}
+	if faulty && r.off >= r.plan.FaultAt && r.plan.FaultKind != "err+data" && r.plan.FaultKind != "transient" {
 		if r.plan.FaultKind == "eof" {
 			r.Fired["early-eof"]++
 			return 0, io.EOF
@@ -185,7 +200,16 @@ func (r *Reader) Read(p []byte) (int, error) {
 		chunk = 1
 	}
 	n := minInt(minInt(len(p), chunk), len(r.data)-r.off)
-	if faulty && r.off+n > r.plan.FaultAt {
+	if faulty && r.plan.FaultKind == "transient" {
+		if r.off+n >= r.plan.FaultAt {
+			// deliver these bytes AND an error, once; later reads go on
+			copy(p, r.data[r.off:r.off+n])
+			r.off += n
+			r.transientDone = true
+			r.Fired["transient-error-with-data"]++
+			return n, ErrSim
+		}
+	} else if faulty && r.off+n > r.plan.FaultAt {
 		n = r.plan.FaultAt - r.off
 		if r.plan.FaultKind == "err+data" {
 			// bytes and the error in the same call
